@@ -50,6 +50,12 @@ def layouts(w, tier):
               3 * w + w.bit_length()]
         lw = [v for v in dict.fromkeys(lw) if v < (1 << w)]
         out['lazy-desc'] = ([(F2, 2 + 1000), (F1, 2 + 1200), (0, tail)], [0, 1, 2, 3], lw, {F1: 0, F1 + 1: F1 * w, F2: 2 * w + 1, F2 + 1: F1 * w})
+    # a far segment whose loaded data starts inside one 16K-word page and runs into the next one
+    if w >= 32:
+        P = 1 << 14
+        pw = [0, 2 * w, 2 * w + 1, (P - 4) * w, (P - 3) * w + 5, (P - 2) * w, (P - 1) * w + 1, P * w, (P + 1) * w + 3, (P + 2) * w, (P + 3) * w, (P + 4) * w]
+        out['page-edge'] = ([(0, 4), (P - 4, 8)], [0, 1, 2, 3], pw,
+                            {P - 4: 2 * w + 1, P - 3: P * w, P - 2: 2 * w, P - 1: (P + 2) * w, P: 2 * w, P + 1: (P - 2) * w, P + 2: (P - 1) * w + 1, P + 3: (P + 2) * w})
     # an op AT the input bit (ip = 3w+#w, unaligned, spans words 3..5) and right after it
     in_addr = 3 * w + w.bit_length()
     off = in_addr & (w - 1)
